@@ -371,3 +371,21 @@ PROPS['C05'] = dict(
           'legal states, clients can continue', _C05_BOUND + '; slice %d/6' % k, env={'VERIF_SLICE': str(k)})
         for k in (0, 1, 2, 4)
     ])
+
+
+_C04_RPCS = ['SuggestTrials_w', 'SuggestTrials_v', 'CreateTrial', 'CompleteTrial', 'AddTrialMeasurement', 'StopTrial',
+             'DeleteTrial', 'DeleteStudy', 'UpdateMetadata', 'SetStudyState', 'CreateStudy', 'CheckTrialEarlyStoppingState']
+PROPS['C04'] = dict(
+    level='model_checking',
+    encoded=['VizierServicer.* RPCs with their lock tables (_owner_name_to_lock, _study_name_to_lock, _operation_lock)',
+             'NestedDictRAMDataStore.*'],
+    bounds='all ordered pairs (A, B) of 12 RPC kinds; A suspended before its k-th datastore operation for every k (0..11), B '
+           'runs until it finishes or blocks, A resumes; executed with two real threads; compared with A;B and B;A',
+    outside='more than one preemption; three concurrent calls; SQL datastore; pre-states other than the stated one',
+    assumptions=['one preemption point per schedule; RAM datastore operations are atomic (datastore._lock)'],
+    obligations=[
+        O('C04.pair_a%d' % i, 'harness.c04_schedules', 'pair', 240, 900,
+          'A = %s against every B and every preemption point: outcome serialisable, no deadlock' % n,
+          'B over 12 RPC kinds, k in 0..11', env={'VERIF_SLICE': str(i)}, no_validate=True)
+        for i, n in enumerate(_C04_RPCS)
+    ])
